@@ -55,6 +55,8 @@ type c20Shared struct {
 	sel          selector.Selector
 	specNode     datamodel.Node
 	cfgNoChooser *traversal.Config
+	cfgStart     *traversal.Config // fully populated, with a start-at path
+	startVisits  int
 	linkFree     datamodel.Node
 	node0Visits  int
 	linkRaw      []string
@@ -265,6 +267,21 @@ func c20Setup() (*c20Shared, error) {
 			}
 			s.node0Visits = count
 		}
+		{
+			// a shared, fully populated configuration (context and chooser set) that starts its walks at a path
+			mk := func() *traversal.Config {
+				cf := selx.Config(s.real)
+				cf.Ctx = context.Background()
+				cf.StartAtPath = datamodel.ParsePath("x/a/leaf/1")
+				return cf
+			}
+			count := 0
+			if err := (traversal.Progress{Cfg: mk()}).WalkAdv(s.real.Root, s.sel, func(traversal.Progress, datamodel.Node, traversal.VisitReason) error { count++; return nil }); err != nil {
+				c20Err = fmt.Errorf("walk from a start path: %w", err)
+				return
+			}
+			s.cfgStart, s.startVisits = mk(), count
+		}
 		ref := refsel.Walk(s.g, exploreAll)
 		s.visits = len(ref.Visits)
 		for _, v := range ref.Visits {
@@ -390,6 +407,17 @@ func c20Do(s *c20Shared, op, step, gid int) error {
 			}
 			if s.cfgNoChooser.LinkTargetNodePrototypeChooser != nil {
 				return fmt.Errorf("a walk wrote a prototype chooser into the caller's shared Config")
+			}
+			return nil
+		}
+		if step%3 == 1 {
+			count := 0
+			err := traversal.Progress{Cfg: s.cfgStart}.WalkAdv(s.real.Root, s.sel, func(traversal.Progress, datamodel.Node, traversal.VisitReason) error { count++; return nil })
+			if err != nil || count != s.startVisits {
+				return fmt.Errorf("WalkAdv with the shared configuration that starts at %q made %d visits, want %d (err %v)", "x/a/leaf/1", count, s.startVisits, err)
+			}
+			if s.cfgStart.StartAtPath.String() != "x/a/leaf/1" {
+				return fmt.Errorf("a walk changed the start path of the caller's shared Config to %q", s.cfgStart.StartAtPath.String())
 			}
 			return nil
 		}
